@@ -27,6 +27,22 @@ pub assume_specification<T, F: FnOnce() -> T>[ Option::<T>::get_or_insert_with ]
 #[verifier::allow(undeclared_external_trait)]
 pub assume_specification<T>[ std::mem::drop ](x: T) where T: std::marker::Destruct;
 
+// further std functions a changed body is likely to use (so that such a change is DECIDED rather
+// than left undecided for want of a specification)
+pub assume_specification<T>[ std::mem::replace ](x: &mut T, v: T) -> (r: T)
+  ensures r == *old(x), *final(x) == v;
+pub assume_specification<T>[ Option::<T>::or ](o: Option<T>, p: Option<T>) -> (r: Option<T>)
+  ensures r == (if o is Some { o } else { p });
+pub uninterp spec fn duration_is_zero(d: core::time::Duration) -> bool;
+pub assume_specification[ core::time::Duration::is_zero ](d: &core::time::Duration) -> (r: bool)
+  ensures r == duration_is_zero(*d);
+pub assume_specification<T, A: std::alloc::Allocator>[ std::collections::VecDeque::<T, A>::is_empty ](v: &std::collections::VecDeque<T, A>) -> (r: bool)
+  ensures r == (v@.len() == 0);
+pub assume_specification<T, A: std::alloc::Allocator>[ std::collections::VecDeque::<T, A>::front ](v: &std::collections::VecDeque<T, A>) -> (r: Option<&T>)
+  ensures v@.len() == 0 ==> r is None, v@.len() > 0 ==> r == Some(&v@[0]);
+pub assume_specification<T, A: std::alloc::Allocator>[ std::collections::VecDeque::<T, A>::back ](v: &std::collections::VecDeque<T, A>) -> (r: Option<&T>)
+  ensures v@.len() == 0 ==> r is None, v@.len() > 0 ==> r == Some(&v@[v@.len() - 1]);
+
 // ---- notifications ----------------------------------------------------------------------------
 pub enum Ev<Item, Err> { Next(Item), Error(Err), Complete }
 
